@@ -39,6 +39,8 @@ RULE = ("each run = 10-40 seeded operations by 2-3 holders over <= 8 shared hand
 NAMES = ["BLACK", "RED", "GREEN", "YELLOW", "BLUE", "MAGENTA", "CYAN", "WHITE"]
 N_HANDLES = 8
 MAX_CELLS = 400      # texts are kept small: x.join(x) and x += x grow them geometrically
+LONG_MAX_CELLS = 12000      # ... except in "long" runs: few operations on texts of thousands of characters
+LONG_SIZES = [1000, 1023, 1024, 2048, 4095, 4096, 4097, 5000, 8192, 9999, 10000]
 ALPHA = "abcxyz0189 _-|ü<>^s\t"
 
 
@@ -128,6 +130,18 @@ def gen_spec(rng):
     return fill + align + width + typ
 
 
+def gen_long_piece(rng, ncolors):
+    """a long run of one colour: in one piece, or (with "rep") as many appends of a short piece"""
+    c = rng.randrange(ncolors + 1)
+    n = rng.choice(LONG_SIZES) - rng.choice([0, 0, 1, 3])
+    piece = {"s": "".join(rng.choice(ALPHA) for _ in range(rng.randint(1, 9)))}
+    if c < ncolors:
+        piece["c"] = c
+    if rng.random() < 0.5:
+        return dict(piece, s=(piece["s"] * (n // len(piece["s"]) + 1))[:n]), 1
+    return piece, n // len(piece["s"]) + rng.choice([0, 1, 2])
+
+
 def generate(rng, tier):
     ncolors = rng.randint(2, 4)
     colors = [gen_colorspec(rng) for _ in range(ncolors - 1)] + [None]
@@ -136,12 +150,19 @@ def generate(rng, tier):
     ops = []
     live = set()
     fault_free = rng.random() < 0.3
-    for _ in range(rng.randint(10, 40 if tier == "quick" else 80)):
+    long_run = rng.random() < 0.03
+    for _ in range(rng.randint(10, 40 if tier == "quick" else 80) if not long_run else rng.randint(6, 14)):
         by = rng.randrange(nholders)
         r = rng.random()
         dst = rng.randrange(N_HANDLES)
         boom = (not fault_free) and rng.random() < 0.25
-        if not live or r < 0.14:
+        if long_run and live and rng.random() < 0.4:
+            # accumulation: thousands of characters of one colour arrive in one piece or piece by piece
+            piece, rep = gen_long_piece(rng, ncolors)
+            op = {"op": "iadd", "a": rng.choice(sorted(live)), "b": piece}
+            if rep > 1:
+                op["rep"] = rep
+        elif not live or r < 0.14:
             op = {"op": "new", "dst": dst,
                   "parts": [gen_operand(rng, live, ncolors, allow_boom=boom) for _ in range(rng.randint(0, 4))]}
             if boom and rng.random() < 0.4:
@@ -188,7 +209,10 @@ def generate(rng, tier):
             live.add(op["dst"])
         if op["op"] == "drop":
             live.discard(op["a"])
-    return {"colors": colors, "ops": ops}
+    tr = {"colors": colors, "ops": ops}
+    if long_run:
+        tr["long"] = True
+    return tr
 
 
 def _shorter(o):
@@ -207,6 +231,10 @@ def _shorter(o):
 def simplify(trace):
     ops = trace["ops"]
     for i, op in enumerate(ops):
+        if op.get("rep", 1) > 1:
+            for r2 in (1, op["rep"] // 2, op["rep"] - 1):
+                if 1 <= r2 < op["rep"]:
+                    yield dict(trace, ops=ops[:i] + [dict(op, rep=r2)] + ops[i + 1:])
         for key in ("b", "a"):
             if isinstance(op.get(key), dict):
                 for cand in _shorter(op[key]):
@@ -271,6 +299,8 @@ class World:
                     kw["bg_color"] = tuple(kw["bg_color"])
                 self.fmts.append(color.ColorFmt(c, **kw))
                 self.styles.append(model_style(spec))
+        self.fmt_of_style = {stl: f for stl, f in zip(self.styles, self.fmts)}
+        self.max_cells = LONG_MAX_CELLS if trace.get("long") else MAX_CELLS
         self.sub_cls = type("UserText", (color.CHText,), {"__doc__": "a user's subclass that changes nothing"})
         self.real = {}      # handle -> real object
         self.model = {}     # handle -> MObj (shared between aliases)
@@ -347,14 +377,48 @@ class World:
             raise Violation("text", "colour-of-character",
                             f"{context}: handle {h}: character {i} {cells[i][0]!r} has style {cells[i][1]}, model {m.cells[i][1]}")
         if m.kind == "T":
-            chunks = getattr(x, "chunks", None)
-            if chunks is not None:
-                if any(not c.text for c in chunks):
-                    raise Violation("invariant", "empty-chunk", f"{context}: handle {h}")
-                if any(a.c_prefix == b.c_prefix for a, b in zip(chunks, chunks[1:])):
-                    raise Violation("invariant", "unmerged-neighbours", f"{context}: handle {h}")
-                if len(chunks) > 1:
-                    self.stats["multi_chunk_objects"] += 1
+            # "two texts showing the same characters in the same colours compare equal however they were
+            # assembled": the same text built at once, one piece per run of equally coloured characters
+            ref = self.built_at_once(m.cells)
+            try:
+                ok = (x == ref) and (ref == x) and not (x != ref)
+                if ok:
+                    # ... and equals the plain string exactly when every character has the default colour
+                    plain = all(stl == sgr.PLAIN for _, stl in m.cells)
+                    if not (bool(x == want_text) == plain and bool(want_text == x) == plain):
+                        raise Violation("equality", "wrong-answer-against-plain-string",
+                                        f"{context}: handle {h}: {s!r} == {want_text!r} gives {x == want_text}, "
+                                        f"{'all' if plain else 'not all'} characters have the default colour")
+            except Violation:
+                raise
+            except Exception as e:
+                raise Violation("equality", f"eq-raised-{type(e).__name__}", f"{context}: handle {h}: {e!r}")
+            self.stats["eq_checks"] += 1
+            if not ok:
+                chunks = getattr(x, "chunks", None)
+                shape = f" (its pieces: {[len(c.text) for c in chunks][:12]})" if chunks is not None else ""
+                raise Violation("equality", "differs-from-same-text-built-at-once",
+                                f"{context}: handle {h}: {len(m.cells)} characters in {self.n_runs(m.cells)} colour run(s) "
+                                f"do not compare equal to the same text built in one go{shape}")
+            if len(getattr(x, "chunks", ())) > 1:
+                self.stats["multi_chunk_objects"] += 1
+
+    @staticmethod
+    def n_runs(cells):
+        return sum(1 for i, c in enumerate(cells) if i == 0 or cells[i - 1][1] != c[1])
+
+    def built_at_once(self, cells):
+        parts = []
+        i = 0
+        while i < len(cells):
+            j = i
+            while j < len(cells) and cells[j][1] == cells[i][1]:
+                j += 1
+            text = "".join(ch for ch, _ in cells[i:j])
+            stl = cells[i][1]
+            parts.append(text if stl == sgr.PLAIN else self.fmt_of_style[stl](text))
+            i = j
+        return self.color.CHText(*parts)
 
     def check_all(self, context):
         for h in sorted(self.real):
@@ -387,7 +451,7 @@ def apply(w, op):
             fault = None
         except BoomHit as b:
             fault = b
-        if len(out) > MAX_CELLS:
+        if len(out) > w.max_cells:
             return
         parts = [w.real_operand(p) for p in op["parts"]]
         try:
@@ -427,7 +491,7 @@ def apply(w, op):
             left_r = w.real_operand(op["a"])
             right_r = w.real[op["b"]]
             recv = w.real[op["b"]]
-        if len(out) > MAX_CELLS:
+        if len(out) > w.max_cells:
             return
         try:
             x = left_r + right_r
@@ -443,12 +507,14 @@ def apply(w, op):
         m = w.model[h]
         old = list(m.cells)
         out = list(old)
+        rep = op.get("rep", 1) if set(op["b"]) <= {"s", "c"} else 1
         try:
-            w.model_operand(op["b"], out)
+            for _ in range(rep):
+                w.model_operand(op["b"], out)
             fault = None
         except BoomHit as b:
             fault = b
-        if len(out) > MAX_CELLS:
+        if len(out) > w.max_cells:
             return
         x = w.real[h]
         if "l" in op["b"] and w.list_contains_object(op["b"], x):
@@ -459,11 +525,14 @@ def apply(w, op):
         operand = w.real_operand(op["b"])
         shared = sum(1 for hh in w.real if w.real[hh] is x) > 1 or m.origin != "new"
         try:
-            x += operand
+            for _ in range(rep):
+                x += operand
             raised = None
         except Exception as e:
             raised = e
         st["inplace_ops"] += 1
+        if rep > 1:
+            st["repeated_appends"] = st.get("repeated_appends", 0) + rep
         if fault is not None:
             st["faults_fired"] += 1
             if raised is None:
@@ -498,7 +567,7 @@ def apply(w, op):
             if n:
                 out.extend(sep)
             w.model_operand(it, out)
-        if len(out) > MAX_CELLS:
+        if len(out) > w.max_cells:
             return
         items = [w.real_operand(it) for it in op["items"]]
         try:
@@ -657,7 +726,7 @@ def apply(w, op):
             if n:
                 out.extend(sep)
             out.append(cell)
-        if len(out) > MAX_CELLS:
+        if len(out) > w.max_cells:
             return
         try:
             x = w.real[op["a"]].join(w.real[op["b"]])
